@@ -150,7 +150,7 @@ Cover(P, todo, occ) ==
        ELSE LET tgt == CHOOSE p \in free : \A q \in free : p[1] < q[1] \/ (p[1] = q[1] /\ p[2] <= q[2]) IN
             \E b \in todo : \E cs \in P[b] : tgt \in cs /\ cs \cap occ = {} /\ Cover(P, todo \ {b}, occ \cup cs)
 TilingExists(s, rots, rows, cols) ==
-  Cover([b \in 1..NB |-> PlacementSets(s, b, rots, rows, cols)], 1..NB, {})
+  Cover(TLCEval([b \in 1..NB |-> PlacementSets(s, b, rots, rows, cols)]), 1..NB, {})    \* (TLCEval: tabulate once)
 FreeRows == -2..(GR - 1)       \* any translation that keeps the cells inside the grid
 FreeCols == -2..(GC - 1)
 TilesGrid(s) == TilingExists(s, 0..3, FreeRows, FreeCols)                \* the blocks exactly tile the grid
